@@ -1156,7 +1156,215 @@ def c08(ctx):
     corpus_validate(ctx, scripts, "c08tests")
 
 
+I64_MAX = 2 ** 63 - 1
+I64_MIN = -2 ** 63
+GRID_QUICK = [0, 1, -1, 2, -2, 7, 2 ** 31, -2 ** 31, 2 ** 32, 3037000499, 3037000500, -3037000500,
+              I64_MAX, I64_MAX - 1, I64_MIN, I64_MIN + 1]
+GRID_FULL = sorted(set(GRID_QUICK + [3, -3, 10, -7, 2 ** 31 - 1, -2 ** 31 - 1, 2 ** 32 - 1, -2 ** 32, 2 ** 32 + 1,
+                                     -3037000499, 3037000501, 2 ** 62, -2 ** 62, 2 ** 62 - 1, 2 ** 62 + 1,
+                                     I64_MAX // 2, I64_MIN // 2, I64_MAX // 3, 4611686018427387904,
+                                     6074000999, -6074000999, 1000000007, -999999937, 2 ** 53, -2 ** 53 + 1]))
+
+
+def int_src(v):
+    """Source text of an expression denoting the integer v."""
+    if v == I64_MIN:
+        return "(-9223372036854775807 - 1)"
+    return str(v)
+
+
+def big(v):
+    n = abs(v)
+    mag = []
+    while n:
+        mag.append(n % 10000)
+        n //= 10000
+    return {"neg": v < 0, "mag": mag}
+
+
+def trunc_div(a, b):
+    q = abs(a) // abs(b)
+    return -q if (a < 0) != (b < 0) else q
+
+
+def c06(ctx):
+    import random
+    plain = sv.build(False)
+    ctx.rule = ("TLC at 8 bits: the laws (a/b)*b + a%%b = a, remainder sign and magnitude, truncation toward zero, "
+                "overflow-free product test = exact product fits, result = exact iff defined and fits else a "
+                "diagnostic naming operation and operands, comparisons = integer order -- ASSUMEs over all 65 536 "
+                "pairs; op-assign = assign of the plain operation on variable / element / property targets and "
+                "`a .. b` = ascending list, on the machine around the 8-bit boundary; conformance at 64 bits: for "
+                "every ordered pair of a %d-value boundary grid (0, +-1, +-2, +-2^31, +-2^32, +-3037000499/500, "
+                "2^63-1, -2^63 and neighbours ...) plus seeded random 64-bit pairs, every operator + - * / %% in "
+                "plain and three op-assign forms and < <= > >= == !=, run on the real interpreter; every "
+                "observation validated by TLC with exact limb arithmetic (BigInt; quotient and remainder by their "
+                "postcondition); integer literals with `_` and around 2^63; ranges at the extremes; non-trivial = "
+                "every observation" % (len(GRID_QUICK) if ctx.quick else len(GRID_FULL)))
+    # (1) the laws at 8 bits, and BigInt itself
+    ctx.run_model("MC_Arith", "ArithParams", invariants=["ArithLaws"], minint="Arith8Min", maxint="Arith8Max",
+                  progof="ArithProgOf")
+    ctx.notes.append("ASSUME DivMod, RemSign, TruncToZero, MulFitsOk, ResultRule, OrderRule over all 65 536 8-bit "
+                     "pairs; MC_BigInt ASSUMEs (BigInt = native arithmetic on values straddling limb boundaries)")
+    cfg = os.path.join(sv.SPEC, "MC_BigInt.cfg")
+    rc, out = sv.tlc("MC_BigInt", cfg=cfg, workers=2, timeout=600)
+    if not sv.tlc_ok(rc, out):
+        raise sv.ToolError("MC_BigInt failed:\n" + sv.tlc_error_text(out))
+    # (2) observations of the real interpreter
+    rnd = random.Random(ctx.seed)
+    grid = GRID_QUICK if ctx.quick else GRID_FULL
+    pairs = [(a, b) for a in grid for b in grid]
+    for _ in range(150 if ctx.quick else 2000):
+        def r64():
+            k = rnd.randrange(1, 64)
+            return rnd.randrange(-2 ** k, 2 ** k)
+        pairs.append((r64(), r64()))
+        pairs.append((max(I64_MIN, min(I64_MAX, r64() * r64())), r64()))
+    d = sv.scratch("c06")
+    forms = ["plain", "var", "elem", "prop"]
+    jobs = []
+    for pi_, (a, b) in enumerate(pairs):
+        fs = forms if (a in grid and b in grid) else [rnd.choice(forms)]
+        for op in ["+", "-", "*", "/", "%"]:
+            for f in fs:
+                jobs.append((len(jobs), "arith", op, f, a, b))
+        for op in ["<", "<=", ">", ">=", "==", "!="]:
+            jobs.append((len(jobs), "cmp", op, "plain", a, b))
+
+    def prog(kind, op, f, a, b):
+        A, B = int_src(a), int_src(b)
+        if f == "plain":
+            return "print(%s %s %s)\n" % (A, op, B)
+        if f == "var":
+            return "x := %s\nx %s= %s\nprint(x)\n" % (A, op, B)
+        if f == "elem":
+            return "xs := [0, %s]\nxs[1] %s= %s\nprint(xs[1])\n" % (A, op, B)
+        return "o := {\"p\": %s}\no.p %s= %s\nprint(o[\"p\"])\n" % (A, op, B)
+
+    def run(job):
+        i, kind, op, f, a, b = job
+        fn = "a%d.sd" % i
+        with open(os.path.join(d, fn), "w") as fh:
+            fh.write(prog(kind, op, f, a, b))
+        return sv.run_seed(plain, fn, d)
+    res = sv.pmap(run, jobs)
+    obs = []
+    meta = []
+    pending = {}
+
+    def outcome(job, r):
+        """('value', int) / ('overflow',) / ('bool', b) / ('bad', why)"""
+        i, kind, op, f, a, b = job
+        so, se, code = r
+        cr = sv.crashed(se, code)
+        if cr:
+            return ("crash", cr)
+        if code == 0 and se == b"":
+            t = so.decode().strip()
+            if t in ("true", "false"):
+                return ("bool", t == "true")
+            if re.fullmatch(r"-?[0-9]+", t):
+                return ("value", int(t))
+            return ("bad", "unexpected output %r" % t)
+        want = ("'%d %s %d' caused an integer overflow\n" % (a, op, b)).encode()
+        if code == 103 and so == b"" and se.endswith(want) and se.count(b"\n") == 1:
+            return ("overflow",)
+        return ("bad", "stdout=%r stderr=%r exit=%r" % (so[:80], se[:200], code))
+
+    for job, r in zip(jobs, res):
+        i, kind, op, f, a, b = job
+        oc = outcome(job, r)
+        ctx.evaluations += 1
+        script = prog(kind, op, f, a, b)
+        if oc[0] == "crash":
+            ctx.violation("the interpreter crashed (%s) on an arithmetic operation" % oc[1], script=script, prop="C02")
+            continue
+        if oc[0] == "bad":
+            ctx.violation("arithmetic observation is neither a value nor the overflow diagnostic: %s" % oc[1],
+                          script=script)
+            continue
+        if kind == "cmp":
+            if oc[0] != "bool":
+                ctx.violation("comparison did not yield a boolean", script=script, detail={"got": oc})
+                continue
+            obs.append({"kind": "cmp", "op": op, "a": big(a), "b": big(b), "rb": oc[1]})
+            meta.append(script)
+        elif op in ("+", "-", "*"):
+            obs.append({"kind": "arith", "op": op, "a": big(a), "b": big(b), "res": oc[0],
+                        "r": big(oc[1]) if oc[0] == "value" else big(0)})
+            meta.append(script)
+        else:
+            key = (a, b, f)
+            pending.setdefault(key, {})[op] = (oc, script)
+            if len(pending[key]) == 2:
+                q, qs = pending[key]["/"]
+                rr, rs = pending[key]["%"]
+                obs.append({"kind": "divmod", "a": big(a), "b": big(b), "qres": q[0],
+                            "q": big(q[1]) if q[0] == "value" else big(0), "rres": rr[0],
+                            "r": big(rr[1]) if rr[0] == "value" else big(0)})
+                meta.append(qs + "# and\n" + rs)
+    # literals
+    lits = ["0", "7", "1_000", "1_2_3", "9223372036854775807", "9223372036854775808", "9_223_372_036_854_775_807",
+            "0009", "18446744073709551616", "99999999999999999999", "1__0", "4611686018427387904", "000", "10_"]
+    for i, lt in enumerate(lits):
+        fn = "l%d.sd" % i
+        open(os.path.join(d, fn), "w").write("print(%s)\n" % lt)
+        so, se, code = sv.run_seed(plain, fn, d)
+        ctx.evaluations += 1
+        acc = code == 0
+        if not acc and not (code == 103 and so == b"" and se.decode().rstrip("\n").endswith(
+                "'%s' is too high for an int" % lt)):
+            ctx.violation("integer literal %s neither accepted nor rejected as too high" % lt,
+                          script="print(%s)\n" % lt, detail={"stderr": se.decode(errors="replace"), "exit": code})
+            continue
+        obs.append({"kind": "literal", "digits": [ord(c) for c in lt], "accepted": acc,
+                    "printed": [ord(c) for c in so.decode().strip()] if acc else []})
+        meta.append("print(%s)\n" % lt)
+    # negative literals and ranges at the extremes
+    rng = [(I64_MAX - 2, I64_MAX), (I64_MIN, I64_MIN + 3), (-2, 3), (5, 5), (7, 2), (I64_MAX, I64_MAX),
+           (I64_MAX - 1, I64_MIN), (-1, 2)]
+    for i, (a, b) in enumerate(rng):
+        fn = "r%d.sd" % i
+        src = "for [k, v] in %s .. %s { print(v); }\nprint(-5)\nprint(-9223372036854775807)\n" % (int_src(a), int_src(b))
+        open(os.path.join(d, fn), "w").write(src)
+        so, se, code = sv.run_seed(plain, fn, d)
+        ctx.evaluations += 1
+        lines = so.decode().split("\n")[:-1]
+        if code != 0 or lines[-2:] != ["-5", "-9223372036854775807"]:
+            ctx.violation("range / negative literal program failed", script=src,
+                          detail={"stdout": so.decode(errors="replace"), "stderr": se.decode(errors="replace")})
+            continue
+        obs.append({"kind": "range", "a": big(a), "b": big(b), "items": [big(int(x)) for x in lines[:-2]]})
+        meta.append(src)
+    # (3) validation by TLC with exact arithmetic
+    of = os.path.join(d, "obs.ndjson")
+    with open(of, "w") as fh:
+        for o in obs:
+            fh.write(json.dumps(o) + "\n")
+    rc, out = sv.tlc("Trace_Arith", cfg=os.path.join(sv.SPEC, "Trace_Arith.cfg"), env={"SEED_OBS": of},
+                     workers=16, timeout=1800)
+    if not sv.tlc_ok(rc, out):
+        raise sv.ToolError("Trace_Arith failed:\n" + sv.tlc_error_text(out))
+    st = sv.tlc_stats(out)
+    ctx.states += st["distinct"]
+    ctx.transitions += max(st["generated"], 1)
+    ctx.models["Trace_Arith"] = {"module": "Trace_Arith", "observations": len(obs),
+                                 "distinct_states": st["distinct"]}
+    ctx.validated += len(obs)
+    for i in range(len(obs)):
+        ctx.nontrivial.add("obs%d" % i)
+    for l in out:
+        m = re.match(r'"BADOBS (\d+)"', l)
+        if m:
+            k = int(m.group(1)) - 1
+            ctx.violation("an observed arithmetic result is not what the laws of C06 allow", script=meta[k],
+                          detail={"observation": obs[k]})
+    for k in (0, len(obs) // 2, len(obs) - 1):
+        ctx.sample({"program": meta[k], "observation": obs[k]})
+
+
 REGISTRY = {
+    "C06": c06,
     "C08": c08,
     "C18": c18,
     "C15": c15,
